@@ -6,8 +6,15 @@
 */
 #include "vh.h"
 #include <dirent.h>
+#include <sys/time.h>
+/* the clock is pinned (link-time --wrap): PEAK chunks carry a time stamp and the twin comparison below compares file bytes */
+static time_t fake_now = 1700000000 ;
+time_t __wrap_time (time_t *t) { if (t) *t = fake_now ; return fake_now ; }
+int __wrap_gettimeofday (struct timeval *tv, void *tz) { (void) tz ; if (tv) { tv->tv_sec = fake_now ; tv->tv_usec = 4242 ; } return 0 ; }
 
-typedef struct { int format, ch, mode ; MEMF m ; SNDFILE *s ; long frames0 ; const char *fn ; char hist [200] ; } H ;
+typedef struct { int expect ; uint64_t res ; char why [160] ; } REC ;
+typedef struct { int format, ch, mode ; MEMF m ; SNDFILE *s ; long frames0 ; const char *fn ; char hist [200] ; REC rec [4] ; int nrec, quiet ; } H ;
+static uint64_t g_data ;	/* digest of the data a read call delivered */
 
 static uint64_t state_digest (H *h)
 {	SF_VERIF_STATE st ; uint64_t d ; vh_state (h->s, &st) ;
@@ -18,7 +25,7 @@ static uint64_t state_digest (H *h)
 	return d ;
 }
 
-enum { EXP_OK, EXP_FAIL, EXP_NEUTRAL } ;
+enum { EXP_OK, EXP_FAIL, EXP_NEUTRAL, EXP_FAIL_Q /* must fail (SF_FALSE) and change nothing; whether an error number is recorded is not documented for these, not judged */ } ;
 typedef struct { const char *name ; int (*fn) (H *h, int *expect, char *why) ; } CALL ;
 /* each call returns 1 when the observed return value matches 'expect', 0 otherwise (why = description) */
 
@@ -27,10 +34,10 @@ static short sbuf [64] ; static float fbuf [64] ; static int ibuf [64] ; static 
 #define CAN_READ(h) ((h)->mode != SFM_WRITE)
 #define CAN_WRITE(h) ((h)->mode != SFM_READ)
 
-static int c_read_ok (H *h, int *e, char *w) { sf_count_t r = sf_readf_short (h->s, sbuf, 3) ; SF_VERIF_STATE st ; vh_state (h->s, &st) ;
+static int c_read_ok (H *h, int *e, char *w) { sf_count_t r = sf_readf_short (h->s, sbuf, 3) ; SF_VERIF_STATE st ; vh_state (h->s, &st) ; if (r > 0 && r <= 3) g_data = vh_fnv (1, sbuf, (size_t) r * h->ch * sizeof (short)) ;
 	if (!CAN_READ (h)) { *e = EXP_FAIL ; snprintf (w, 100, "sf_readf_short on a write-only handle returned %ld", (long) r) ; return r == 0 ; }
 	*e = EXP_OK ; snprintf (w, 100, "sf_readf_short (3) returned %ld", (long) r) ; return r >= 0 && r <= 3 ; }
-static int c_read_items_ok (H *h, int *e, char *w) { sf_count_t r = sf_read_double (h->s, dbuf, 2 * h->ch) ;
+static int c_read_items_ok (H *h, int *e, char *w) { sf_count_t r = sf_read_double (h->s, dbuf, 2 * h->ch) ; if (r > 0 && r <= 2 * h->ch) g_data = vh_fnv (2, dbuf, (size_t) r * sizeof (double)) ;
 	if (!CAN_READ (h)) { *e = EXP_FAIL ; snprintf (w, 100, "sf_read_double on a write-only handle returned %ld", (long) r) ; return r == 0 ; }
 	*e = EXP_OK ; snprintf (w, 100, "sf_read_double returned %ld", (long) r) ; return r >= 0 && r <= 2 * h->ch ; }
 static int c_write_ok (H *h, int *e, char *w) { sf_count_t r ; int i ; for (i = 0 ; i < 64 ; i++) sbuf [i] = (short) (i * 100) ; r = sf_writef_short (h->s, sbuf, 2) ;
@@ -39,8 +46,18 @@ static int c_write_ok (H *h, int *e, char *w) { sf_count_t r ; int i ; for (i = 
 static int c_write_float_ok (H *h, int *e, char *w) { sf_count_t r ; int i ; for (i = 0 ; i < 64 ; i++) fbuf [i] = 0.25f ; r = sf_write_float (h->s, fbuf, h->ch) ;
 	if (!CAN_WRITE (h)) { *e = EXP_FAIL ; snprintf (w, 100, "sf_write_float on a read-only handle returned %ld", (long) r) ; return r == 0 ; }
 	*e = EXP_OK ; snprintf (w, 100, "sf_write_float returned %ld", (long) r) ; return r == h->ch ; }
-static int c_read_misaligned (H *h, int *e, char *w) { sf_count_t r ; if (h->ch < 2) { *e = EXP_NEUTRAL ; return 1 ; } r = sf_read_int (h->s, ibuf, h->ch + 1) ; *e = EXP_FAIL ; snprintf (w, 100, "sf_read_int with %d items on %d channels returned %ld", h->ch + 1, h->ch, (long) r) ; return r == 0 ; }
-static int c_write_misaligned (H *h, int *e, char *w) { sf_count_t r ; if (h->ch < 2) { *e = EXP_NEUTRAL ; return 1 ; } r = sf_write_short (h->s, sbuf, h->ch + 1) ; *e = EXP_FAIL ; snprintf (w, 100, "sf_write_short with %d items on %d channels returned %ld", h->ch + 1, h->ch, (long) r) ; return r == 0 ; }
+static sf_count_t read_items_t (SNDFILE *s, int t, sf_count_t n) { switch (t) { case 0 : return sf_read_short (s, sbuf, n) ; case 1 : return sf_read_int (s, ibuf, n) ; case 2 : return sf_read_float (s, fbuf, n) ; default : return sf_read_double (s, dbuf, n) ; } }
+static sf_count_t write_items_t (SNDFILE *s, int t, sf_count_t n) { switch (t) { case 0 : return sf_write_short (s, sbuf, n) ; case 1 : return sf_write_int (s, ibuf, n) ; case 2 : return sf_write_float (s, fbuf, n) ; default : return sf_write_double (s, dbuf, n) ; } }
+static int read_mis_t (H *h, int *e, char *w, int t) { sf_count_t r ; if (h->ch < 2) { *e = EXP_NEUTRAL ; return 1 ; } r = read_items_t (h->s, t, h->ch + 1) ; *e = EXP_FAIL ; snprintf (w, 100, "sf_read_%s with %d items on %d channels returned %ld", vh_tname [t], h->ch + 1, h->ch, (long) r) ; return r == 0 ; }
+static int write_mis_t (H *h, int *e, char *w, int t) { sf_count_t r ; if (h->ch < 2) { *e = EXP_NEUTRAL ; return 1 ; } r = write_items_t (h->s, t, h->ch + 1) ; *e = EXP_FAIL ; snprintf (w, 100, "sf_write_%s with %d items on %d channels returned %ld", vh_tname [t], h->ch + 1, h->ch, (long) r) ; return r == 0 ; }
+static int c_read_misaligned (H *h, int *e, char *w) { return read_mis_t (h, e, w, 1) ; }
+static int c_read_mis_short (H *h, int *e, char *w) { return read_mis_t (h, e, w, 0) ; }
+static int c_read_mis_float (H *h, int *e, char *w) { return read_mis_t (h, e, w, 2) ; }
+static int c_read_mis_double (H *h, int *e, char *w) { return read_mis_t (h, e, w, 3) ; }
+static int c_write_misaligned (H *h, int *e, char *w) { return write_mis_t (h, e, w, 0) ; }
+static int c_write_mis_int (H *h, int *e, char *w) { return write_mis_t (h, e, w, 1) ; }
+static int c_write_mis_float (H *h, int *e, char *w) { return write_mis_t (h, e, w, 2) ; }
+static int c_write_mis_double (H *h, int *e, char *w) { return write_mis_t (h, e, w, 3) ; }
 static int c_read_negative (H *h, int *e, char *w) { sf_count_t r = sf_readf_float (h->s, fbuf, -1) ; *e = EXP_FAIL ; snprintf (w, 100, "sf_readf_float (-1) returned %ld", (long) r) ; return r == 0 ; }
 static int c_write_negative (H *h, int *e, char *w) { sf_count_t r = sf_write_int (h->s, ibuf, -(sf_count_t) h->ch) ; *e = EXP_FAIL ; snprintf (w, 100, "sf_write_int (-ch) returned %ld", (long) r) ; return r == 0 ; }
 static int c_read_zero (H *h, int *e, char *w) { sf_count_t r = sf_read_short (h->s, sbuf, 0) ; *e = EXP_NEUTRAL ; snprintf (w, 100, "sf_read_short (0) returned %ld", (long) r) ; return r == 0 ; }
@@ -75,13 +92,26 @@ static int c_setchunk_null (H *h, int *e, char *w) { int r = sf_set_chunk (h->s,
 static int c_getstr (H *h, int *e, char *w) { const char *p = sf_get_string (h->s, SF_STR_GENRE) ; *e = EXP_NEUTRAL ; snprintf (w, 100, "sf_get_string") ; (void) p ; return 1 ; }
 static int c_truncate_bad (H *h, int *e, char *w) { sf_count_t n = -3 ; int r ; if (h->mode == SFM_READ) { *e = EXP_NEUTRAL ; return 1 ; } r = sf_command (h->s, SFC_FILE_TRUNCATE, &n, sizeof (n)) ; *e = EXP_FAIL ; snprintf (w, 100, "SFC_FILE_TRUNCATE (-3) returned %d", r) ; return r != 0 ; }
 
+/* metadata set-commands with invalid arguments: the documented failure value is SF_FALSE */
+static int is_riff (H *h) { int m = h->format & SF_FORMAT_TYPEMASK ; return m == SF_FORMAT_WAV || m == SF_FORMAT_WAVEX || m == SF_FORMAT_RF64 ; }
+static int c_bext_small (H *h, int *e, char *w) { static SF_BROADCAST_INFO bi ; int r ; memset (&bi, 0, sizeof (bi)) ; snprintf (bi.description, sizeof (bi.description), "d") ; r = sf_command (h->s, SFC_SET_BROADCAST_INFO, &bi, 10) ; *e = EXP_FAIL_Q ; snprintf (w, 100, "SFC_SET_BROADCAST_INFO with datasize 10 returned %d", r) ; return r == SF_FALSE ; }
+static int c_bext_hist (H *h, int *e, char *w) { static SF_BROADCAST_INFO bi ; int r ; memset (&bi, 0, sizeof (bi)) ; bi.coding_history_size = 100000 ; r = sf_command (h->s, SFC_SET_BROADCAST_INFO, &bi, sizeof (bi)) ; *e = EXP_FAIL_Q ; snprintf (w, 100, "SFC_SET_BROADCAST_INFO with coding_history_size 100000 in a %d byte struct returned %d", (int) sizeof (bi), r) ; return r == SF_FALSE ; }
+static int c_cart_small (H *h, int *e, char *w) { static SF_CART_INFO ci ; int r ; memset (&ci, 0, sizeof (ci)) ; r = sf_command (h->s, SFC_SET_CART_INFO, &ci, 10) ; *e = EXP_FAIL_Q ; snprintf (w, 100, "SFC_SET_CART_INFO with datasize 10 returned %d", r) ; return r == SF_FALSE ; }
+static int c_inst_size (H *h, int *e, char *w) { static SF_INSTRUMENT in ; int r ; memset (&in, 0, sizeof (in)) ; r = sf_command (h->s, SFC_SET_INSTRUMENT, &in, sizeof (in) - 1) ; *e = EXP_FAIL_Q ; snprintf (w, 100, "SFC_SET_INSTRUMENT with sizeof-1 returned %d", r) ; return r == SF_FALSE ; }
+static int c_cue_size (H *h, int *e, char *w) { static SF_CUES cu ; int r ; memset (&cu, 0, sizeof (cu)) ; cu.cue_count = 2 ; r = sf_command (h->s, SFC_SET_CUE, &cu, 2) ; *e = EXP_FAIL_Q ; snprintf (w, 100, "SFC_SET_CUE with datasize 2 returned %d", r) ; return r == SF_FALSE ; }
+static int c_chmap_size (H *h, int *e, char *w) { int cm [8] = { SF_CHANNEL_MAP_LEFT, SF_CHANNEL_MAP_RIGHT, SF_CHANNEL_MAP_CENTER, SF_CHANNEL_MAP_LFE, 1, 1, 1, 1 }, r = sf_command (h->s, SFC_SET_CHANNEL_MAP_INFO, cm, (int) sizeof (int) * (h->ch + 1)) ; *e = EXP_FAIL_Q ; snprintf (w, 100, "SFC_SET_CHANNEL_MAP_INFO with ch+1 entries returned %d", r) ; return r == SF_FALSE ; }
+static int c_chmap_value (H *h, int *e, char *w) { int cm [8] = { SF_CHANNEL_MAP_LEFT, SF_CHANNEL_MAP_MAX + 5, SF_CHANNEL_MAP_MAX + 5, 1, 1, 1, 1, 1 }, r ; if (h->ch < 2) { *e = EXP_NEUTRAL ; return 1 ; } r = sf_command (h->s, SFC_SET_CHANNEL_MAP_INFO, cm, (int) sizeof (int) * h->ch) ; *e = EXP_FAIL_Q ; snprintf (w, 100, "SFC_SET_CHANNEL_MAP_INFO with an out-of-range position returned %d", r) ; return r == SF_FALSE ; }
+
 static CALL calls [] = {
 	{ "readf_short(3)", c_read_ok }, { "read_double(2ch)", c_read_items_ok }, { "writef_short(2)", c_write_ok }, { "write_float(ch)", c_write_float_ok },
-	{ "read_int(ch+1)", c_read_misaligned }, { "write_short(ch+1)", c_write_misaligned }, { "readf_float(-1)", c_read_negative }, { "write_int(-ch)", c_write_negative },
+	{ "read_int(ch+1)", c_read_misaligned }, { "write_short(ch+1)", c_write_misaligned }, { "read_short(ch+1)", c_read_mis_short }, { "read_float(ch+1)", c_read_mis_float }, { "read_double(ch+1)", c_read_mis_double },
+	{ "write_int(ch+1)", c_write_mis_int }, { "write_float(ch+1)", c_write_mis_float }, { "write_double(ch+1)", c_write_mis_double }, { "readf_float(-1)", c_read_negative }, { "write_int(-ch)", c_write_negative },
 	{ "read_short(0)", c_read_zero }, { "seek(0,SET)", c_seek_ok }, { "seek(whence=77)", c_seek_whence }, { "seek(-5,SET)", c_seek_negative }, { "seek(F+10,SET)", c_seek_beyond }, { "seek(F+10,SET|R)", c_seek_beyond_r }, { "seek(F+10,SET|RW)", c_seek_beyond_rw }, { "seek(+3,END)", c_seek_end_beyond }, { "seek(F+2,CUR|R)", c_seek_cur_beyond },
 	{ "seek(other-mode)", c_seek_wrongmode }, { "command(0x7777)", c_cmd_unknown }, { "GET_CURRENT_SF_INFO(NULL)", c_cmd_null }, { "GET_CURRENT_SF_INFO", c_cmd_ok },
 	{ "set_string(type 9999)", c_setstr_bad }, { "set_string(NULL)", c_setstr_null }, { "set_string(read-only)", c_setstr_readonly }, { "set_chunk(read-only)", c_setchunk_readonly },
 	{ "set_chunk(NULL)", c_setchunk_null }, { "get_string", c_getstr }, { "TRUNCATE(-3)", c_truncate_bad },
+	{ "SET_BROADCAST_INFO(size 10)", c_bext_small }, { "SET_BROADCAST_INFO(history size)", c_bext_hist }, { "SET_CART_INFO(size 10)", c_cart_small }, { "SET_INSTRUMENT(size-1)", c_inst_size },
+	{ "SET_CUE(size 2)", c_cue_size }, { "SET_CHANNEL_MAP_INFO(ch+1)", c_chmap_size }, { "SET_CHANNEL_MAP_INFO(bad position)", c_chmap_value },
 } ;
 #define NCALLS ((int) (sizeof (calls) / sizeof (calls [0])))
 
@@ -97,11 +127,13 @@ static int h_open (H *h, int format, int ch, int mode, const MEMF *base)
 static void do_call (H *h, int ci)
 {	int expect = EXP_NEUTRAL, ok, err ; char why [160] = "" ; uint64_t d0, d1 ; const char *msg ;
 	{	size_t l = strlen (h->hist) ; if (l < sizeof (h->hist) - 32) snprintf (h->hist + l, sizeof (h->hist) - l, "%s%s", l ? " ; " : "", calls [ci].name) ; }
-	d0 = state_digest (h) ; last_rc = 0 ;
+	d0 = state_digest (h) ; last_rc = 0 ; g_data = 0 ;
 	ok = calls [ci].fn (h, &expect, why) ;
 	err = sf_error (h->s) ;
 	d1 = state_digest (h) ;
-	vh_stat (expect == EXP_FAIL ? "invalid_calls_checked" : expect == EXP_OK ? "valid_calls_checked" : "neutral_calls", 1) ;
+	if (h->nrec < 4) { REC *r = &h->rec [h->nrec++] ; r->expect = expect ; r->res = vh_fnv (g_data, why, strlen (why)) ; snprintf (r->why, sizeof (r->why), "%s", why) ; }
+	if (h->quiet) return ;
+	vh_stat (expect == EXP_FAIL || expect == EXP_FAIL_Q ? "invalid_calls_checked" : expect == EXP_OK ? "valid_calls_checked" : "neutral_calls", 1) ;
 	if (!ok) vh_viol (vh_key ("C09|return-value|%s|%s|%s", calls [ci].name, h->fn, h->mode == SFM_READ ? "r" : h->mode == SFM_WRITE ? "w" : "rw"), "history [%s]: %s", h->hist, why) ;
 	if (expect == EXP_FAIL)
 	{	/* sf_command / sf_set_string / sf_set_chunk return the error number itself (docs: "can be converted with sf_error_number"): either channel counts */
@@ -115,9 +147,34 @@ static void do_call (H *h, int ci)
 			}
 		if (d0 != d1) vh_viol (vh_key ("C09|state-changed-by-failed-call|%s|%s|%s", calls [ci].name, h->fn, h->mode == SFM_READ ? "r" : h->mode == SFM_WRITE ? "w" : "rw"), "history [%s]: %s; positions/frames/settings/metadata/file bytes changed", h->hist, why) ;
 		}
+	else if (expect == EXP_FAIL_Q)
+	{	if (d0 != d1) vh_viol (vh_key ("C09|state-changed-by-failed-call|%s|%s|%s", calls [ci].name, h->fn, h->mode == SFM_READ ? "r" : h->mode == SFM_WRITE ? "w" : "rw"), "history [%s]: %s; positions/frames/settings/metadata/file bytes changed", h->hist, why) ; }
 	else if (expect == EXP_OK && err != 0)
 		vh_viol (vh_key ("C09|error-after-success|%s|%s", calls [ci].name, h->fn), "history [%s]: %s, yet sf_error = %d (%s)", h->hist, why, err, sf_strerror (h->s)) ;
 	vh_check_inv (h->s, calls [ci].name) ;
+}
+
+
+/* Twin oracle: "an invalid call has no effect" is decided behaviourally.  The same history WITHOUT its failed calls is run on a second,
+** fresh handle; every remaining call must return the same value and data, and after sf_close both backing stores must hold the same bytes. */
+static void twin_check (H *h, int format, int ch, int mode, const MEMF *base, int a, int b, int c)
+{	H t ; int seq [3] = { a, b, c }, i, nfail = 0, firstfail = -1, j = 0 ; const char *ms = mode == SFM_READ ? "r" : mode == SFM_WRITE ? "w" : "rw" ;
+	for (i = 0 ; i < h->nrec ; i++) if (h->rec [i].expect == EXP_FAIL || h->rec [i].expect == EXP_FAIL_Q) { nfail++ ; if (firstfail < 0) firstfail = i ; }
+	if (!nfail) return ;
+	if (h_open (&t, format, ch, mode, base) != 0) return ;
+	t.quiet = 1 ;
+	for (i = 0 ; i < h->nrec ; i++)
+	{	if (h->rec [i].expect == EXP_FAIL || h->rec [i].expect == EXP_FAIL_Q) continue ;
+		do_call (&t, seq [i]) ;
+		if (t.rec [j].expect == EXP_FAIL || t.rec [j].expect == EXP_FAIL_Q || t.rec [j].res != h->rec [i].res)
+		{	vh_viol (vh_key ("C09|failed-call-has-effect|%s|%s|%s", calls [seq [firstfail]].name, h->fn, ms), "history [%s]: call %d (%s) gave [%s]; in the same history without the failed call(s) it gives [%s]%s", h->hist, i + 1, calls [seq [i]].name, h->rec [i].why, t.rec [j].why, strcmp (h->rec [i].why, t.rec [j].why) ? "" : " (same return value, different data)") ;
+			sf_close (t.s) ; mv_free (&t.m) ; return ; }
+		j++ ; }
+	sf_close (h->s) ; h->s = NULL ; sf_close (t.s) ;
+	if (h->m.len != t.m.len || (h->m.len > 0 && memcmp (h->m.d, t.m.d, (size_t) h->m.len)))
+		vh_viol (vh_key ("C09|failed-call-has-effect|%s|%s|%s|file-bytes", calls [seq [firstfail]].name, h->fn, ms), "history [%s]: after sf_close the file (%ld bytes) differs from the file of the same history without the failed call(s) (%ld bytes)", h->hist, (long) h->m.len, (long) t.m.len) ;
+	else vh_stat ("twin_histories_equal", 1) ;
+	mv_free (&t.m) ;
 }
 
 static int count_fds (void) { DIR *d = opendir ("/proc/self/fd") ; int n = 0 ; if (!d) return -1 ; while (readdir (d)) n++ ; closedir (d) ; return n ; }
@@ -191,9 +248,10 @@ int main (int argc, char **argv)
 		{	H h ;
 			if (h_open (&h, format, ch, modes [mi], &base) != 0) { if (b == 0 && c == 0) vh_statf (1, "cannot_open:%s:%d", vh_fname (format), mi) ; goto next ; }
 			do_call (&h, a) ; do_call (&h, b) ; if (depth == 3) do_call (&h, c) ;
+			twin_check (&h, format, ch, modes [mi], &base, a, b, c) ;
 			vh_distinct (vh_fnv (0, &format, 4) ^ ((uint64_t) mi << 40) ^ ((uint64_t) a << 20) ^ ((uint64_t) b << 10) ^ (uint64_t) c ^ ((uint64_t) depth << 50)) ;
 			vh_stat ("histories", 1) ;
-			sf_close (h.s) ; mv_free (&h.m) ;
+			if (h.s) sf_close (h.s) ; mv_free (&h.m) ;
 			}
 	next :
 		mv_free (&base) ;
